@@ -122,7 +122,7 @@ func TestC19(t *testing.T) {
 
 func c19Run(t *testing.T, run *Run, sc c19Scenario) {
 	w := NewWorld(t, WorldOpt{TLSListener: true})
-	defer w.Close()
+	defer func() { w.Close() }()
 	w.MaxClientLife = 10 * time.Minute
 	run.Eval()
 	fix := Fixtures()
@@ -162,6 +162,30 @@ func c19Run(t *testing.T, run *Run, sc c19Scenario) {
 	}
 	w.Pause("pz", time.Second, 300*time.Millisecond)
 	w.Stop("st", time.Second, "closed")
+	if sc.Idx%3 == 2 {
+		// the proxy is restarted before it serves anything: the records are written by a proxy
+		// restored from the state file
+		dir := w.CopyState()
+		names := []string{}
+		for _, ft := range w.Targets {
+			names = append(names, ft.Name)
+		}
+		w.Close()
+		w = NewWorld(t, WorldOpt{TLSListener: true, StateDir: dir})
+		w.MaxClientLife = 10 * time.Minute
+		for _, n := range names {
+			if n != "flt:80" {
+				w.AddTarget(n, nil)
+			}
+		}
+		flt2 := w.AddTarget("flt:80", nil)
+		flt2.RawServe = c15Serve(w)
+		if err := w.Router.RestoreLastSavedState(); err != nil {
+			run.Violate("restore-failed", fmt.Sprintf("RestoreLastSavedState: %v", err), sc, nil)
+			return
+		}
+		run.Count("scenarios_served_by_a_restored_proxy", 1)
+	}
 	svcOf := map[string]string{"plain.example": "plain", "tls.example": "tlsredir", "buf.example": "buf", "bufok.example": "bufok", "pz.example": "pz", "st.example": "st", "flt.example": "flt", "bn.example": "bn"}
 	type outcome struct {
 		status   int
